@@ -163,7 +163,8 @@ def run(ctx):
     ctx.assumptions = ["finite floating-point contents (NaN and infinities are written as null by serde_json)",
                        "HashSet iteration order is arbitrary: week masks are compared as sets",
                        "an FX market saved at AD order two is compared through its rates (to 1e-12 relative), as the property states"]
-    translate.generate(REPO, os.path.join(COQ, "theories", "Gen"))
+    if translate_stage(ctx) is None:
+        return ctx.finish(CMD)
     if not proof_stage(ctx, ["theories/Run/RunJson.vo"]):
         ctx.violation("a C16 proof obligation or the model no longer compiles",
                       {"no_failing_input": True, "theorem": "Props/C16.v / Run/RunJson.v", "log_tail": getattr(ctx, "build_log", "")[-3000:]})
